@@ -32,7 +32,12 @@ Conventions of the transcription:
 * `Put` takes the tower height drawn by `randHeight` as an argument, like the ideal model.
 * The iterator's `key`/`value` are Go slices aliasing `kvData`; the model holds copies.  `kvData` is append-only except
   for `Reset` (`kvData[:0]`), so the copy is faithful as long as no `Reset` intervenes between the `fill` and the use
-  (`Prev` passes `i.key` to `findLT`).
+  (`Prev` passes `i.key` to `findLT`).  After a `Reset` the bytes under the slice may be overwritten by later `Put`s,
+  but then the key is not used any more:
+* `gen` (repairs of D31 and D32): `Reset` increments `DB.gen`, every `fill` copies it into the iterator, `Next` and
+  `Prev` on a valid iterator of an older generation drop the node instead of following a pointer of the truncated
+  `nodeData` (`Next`) or searching with the stale key slice (`Prev`): the iterator is exhausted in the direction of
+  the move.
 
 Offsets and `tMaxHeight` come from `GoLevel.Gen`.  Core Lean only.
 -/
@@ -48,6 +53,8 @@ structure DB where
   maxHeight : Nat
   n : Nat
   kvSize : Nat
+  /-- `gen`: incremented by `Reset`; node indices do not survive a `Reset` (repair of D31) -/
+  gen : Nat := 0
 
 /-- `a[i] = v`; `none` = index out of range -/
 def wr (a : Array Nat) (i v : Nat) : Option (Array Nat) :=
@@ -172,7 +179,7 @@ def putInsert (p : DB) (key value : Bytes) (h : Nat) : Option DB := do
   if h > pn.length then none else
   let nd ← linkLoop node (pn.take h) 0 nd
   some { kvData := kv, nodeData := nd, prevNode := pn, maxHeight := mh, n := p.n + 1,
-         kvSize := p.kvSize + (key.length + value.length) }
+         kvSize := p.kvSize + (key.length + value.length), gen := p.gen }
 
 /-- `Put(key, value)` where `randHeight` returns `h` (drawn only when the key is new) -/
 def put (cmp : Cmp) (p : DB) (key value : Bytes) (h : Nat) : Option DB := do
@@ -229,8 +236,8 @@ def resetLoop (nd : Array Nat) (pn : List Nat) (n : Nat) : Nat → Option (Array
     let pn ← setAt pn n 0
     resetLoop nd pn (n + 1) c
 
-/-- `Reset()`: `kvData[:0]`, `nodeData[:nNext+tMaxHeight]` (both keep their capacity, which the model does not see),
-the head's fields and pointers are rewritten -/
+/-- `Reset()`: `gen++`, `kvData[:0]`, `nodeData[:nNext+tMaxHeight]` (both keep their capacity, which the model does
+not see), the head's fields and pointers are rewritten -/
 def reset (p : DB) : Option DB := do
   if p.nodeData.size < nNext + tMaxHeight then none else
   let nd := p.nodeData.extract 0 (nNext + tMaxHeight)
@@ -239,7 +246,7 @@ def reset (p : DB) : Option DB := do
   let nd ← wr nd nVal 0
   let nd ← wr nd nHeight tMaxHeight
   let (nd, pn) ← resetLoop nd p.prevNode 0 tMaxHeight
-  some { kvData := #[], nodeData := nd, prevNode := pn, maxHeight := 1, n := 0, kvSize := 0 }
+  some { kvData := #[], nodeData := nd, prevNode := pn, maxHeight := 1, n := 0, kvSize := 0, gen := p.gen + 1 }
 
 /-! ## `dbIter` -/
 
@@ -250,10 +257,12 @@ structure Iter where
   forward : Bool := false
   key : Option Bytes := none       -- `nil` = `none`
   value : Option Bytes := none
+  gen : Nat := 0                   -- generation of the DB that `node` belongs to (set by every `fill`)
 deriving DecidableEq
 
-/-- `fill(checkStart, checkLimit)`; the Boolean is the return value -/
+/-- `fill(checkStart, checkLimit)`; the Boolean is the return value.  `i.gen = i.p.gen` is its first statement. -/
 def Iter.fill (cmp : Cmp) (p : DB) (it : Iter) (checkStart checkLimit : Bool) : Option (Iter × Bool) :=
+  let it := { it with gen := p.gen }
   if it.node != 0 then do
     let n ← p.nodeData[it.node]?
     let kl ← p.nodeData[it.node + nKey]?
@@ -295,15 +304,17 @@ def Iter.next (cmp : Cmp) (p : DB) (it : Iter) : Option (Iter × Bool) :=
   if it.node = 0 then
     if !it.forward then it.first cmp p else some (it, false)
   else do
-    let node ← p.nodeData[it.node + nNext]?
+    -- `if i.gen != i.p.gen { i.node = 0 } else { i.node = i.p.nodeData[i.node+nNext] }`
+    let node ← if it.gen != p.gen then some 0 else p.nodeData[it.node + nNext]?
     Iter.fill cmp p { it with forward := true, node := node } false true
 
 def Iter.prev (cmp : Cmp) (p : DB) (it : Iter) : Option (Iter × Bool) :=
   if it.node = 0 then
     if it.forward then it.last cmp p else some (it, false)
   else do
-    -- `findLT(i.key)`; `i.key` is never nil while `i.node != 0`
-    let node ← findLT cmp p (it.key.getD [])
+    -- `if i.gen != i.p.gen { i.node = 0 } else { i.node = i.p.findLT(i.key) }`; `i.key` is never nil while
+    -- `i.node != 0`
+    let node ← if it.gen != p.gen then some 0 else findLT cmp p (it.key.getD [])
     Iter.fill cmp p { it with forward := false, node := node } true false
 
 def Iter.step (cmp : Cmp) (p : DB) : Call Bytes → Iter → Option (Iter × Bool)
@@ -351,5 +362,54 @@ def exec (cmp : Cmp) : DB → List Op → Option DB
   | p, o :: os => do
     let (p', _) ← step cmp p o
     exec cmp p' os
+
+/-! ## interleaving model: one writer, readers and iterators; every step atomic
+
+`mu` makes every public method and every iterator movement one critical section (`Gen.memMethodsAtomic`).  A concurrent
+execution observed from one iterator is an interleaving of operations (`op`: the writer's `Put`/`Delete`/`Reset`, and the
+`Get`/`Find`/`Contains`/`Len`/`Size` of any reader — steps of *other* iterators do not change the table and behave like
+`Len`) and moves of the observed iterator.  The iterator's `key`/`value` slices alias `kvData`; inside one generation
+`kvData` only grows (`C14.memarr_kvdata_append_only`) and in an older generation the slices are not read, so the copies
+the model holds are what the code sees. -/
+
+inductive Ev
+  | op (o : Op)
+  | move (c : Call Bytes)
+
+def Ev.valid : Ev → Prop
+  | .op o => o.valid
+  | _ => True
+
+def Ev.isMove : Ev → Bool
+  | .move _ => true
+  | _ => false
+
+def Ev.isReset : Ev → Bool
+  | .op .reset => true
+  | _ => false
+
+structure CState where
+  db : DB
+  it : Iter
+
+def cstep (cmp : Cmp) (s : CState) : Ev → Option CState
+  | .op o => (step cmp s.db o).map fun r => { s with db := r.1 }
+  | .move c => (Iter.step cmp s.db c s.it).map fun r => { s with it := r.1 }
+
+def cexec (cmp : Cmp) : CState → List Ev → Option CState
+  | s, [] => some s
+  | s, e :: es => (cstep cmp s e).bind fun s' => cexec cmp s' es
+
+/-- what the move `c` yields in state `s`: outer `none` = panic, inner `none` = the move returned false -/
+def cyield (cmp : Cmp) (s : CState) (c : Call Bytes) : Option (Option (Bytes × Bytes)) :=
+  (Iter.step cmp s.db c s.it).map fun r => r.1.out
+
+/-- the pairs put since the last `Reset`, newest first -/
+def putsStep (acc : List (Bytes × Bytes)) : Ev → List (Bytes × Bytes)
+  | .op (.put k v _) => (k, v) :: acc
+  | .op .reset => []
+  | _ => acc
+
+def putsOf (evs : List Ev) : List (Bytes × Bytes) := evs.foldl putsStep []
 
 end GoLevel.MemArr
